@@ -134,6 +134,178 @@ def impl_via_validate_data(case, cfg=None, with_tracklets=False):
         return type(ex).__name__
 
 
+# ----------------------------------------------------------------- further implementation streams
+INT_DTYPES = ["int8", "int16", "int32", "int64", "uint8", "uint16", "uint32", "uint64"]
+
+
+def snapshot(*arrs):
+    return [(a.dtype.str, a.shape, a.tobytes()) for a in arrs]
+
+
+def impl_dtyped(v):
+    """validate_lineages on arrays of independently chosen integer dtypes / memory layouts, ids
+    shifted by a large offset.  v = {case, nd, ed, ld, off, layout}.  The function documents a cast
+    to int64, so the verdict must be the one for the integer VALUES, whatever the dtypes."""
+    from geff.validate.tracks import validate_lineages
+
+    c, off = v["case"], v["off"]
+    nodes = np.asarray([x + off for x in c["nodes"]], dtype=v["nd"])
+    edges = np.asarray([[a + off, b + off] for a, b in c["edges"]], dtype=v["ed"]).reshape(-1, 2)
+    labels = np.asarray(c["labels"], dtype=v["ld"])
+    if v["layout"] == "fortran":
+        edges = np.asfortranarray(edges)
+    elif v["layout"] == "strided":
+        big = np.zeros((max(len(c["edges"]), 1) * 2, 2), dtype=v["ed"])
+        big[::2][: len(c["edges"])] = edges
+        edges = big[::2][: len(c["edges"])]
+        bn = np.zeros(len(c["nodes"]) * 2, dtype=v["nd"])
+        bn[::2] = nodes
+        nodes = bn[::2]
+    elif v["layout"] == "readonly":
+        for a in (nodes, edges, labels):
+            a.setflags(write=False)
+    elif v["layout"] == "bigendian":
+        nodes, edges, labels = (a.astype(a.dtype.newbyteorder(">")) for a in (nodes, edges, labels))
+    before = snapshot(nodes, edges, labels)
+    try:
+        valid, errors = validate_lineages(nodes, edges, labels)
+    except Exception as ex:  # noqa: BLE001
+        return {"exc": type(ex).__name__ + ": " + str(ex)[:80]}
+    bad = []
+    for m in errors:
+        mm = MSG.match(m)
+        bad.append(int(mm.group(1)) if mm else None)
+    return {"valid": bool(valid), "bad": bad, "modified": snapshot(nodes, edges, labels) != before}
+
+
+def masked_geff(v):
+    import geff_spec
+
+    c = v["case"]
+    nodes = np.asarray(c["nodes"], dtype=np.int64)
+    npm = {"lin": geff_spec.PropMetadata(identifier="lin", dtype="int64"),
+           "trk": geff_spec.PropMetadata(identifier="trk", dtype="int64")}
+    lm = np.asarray(v["lin_missing"], dtype=bool) if v["lin_missing"] is not None else None
+    tm = np.asarray(v["trk_missing"], dtype=bool) if v["trk_missing"] is not None else None
+    props = {"lin": {"values": np.asarray(c["labels"], dtype=np.int64), "missing": lm},
+             "trk": {"values": np.asarray(v["trk"], dtype=np.int64), "missing": tm}}
+    md = geff_spec.GeffMetadata(geff_version="1.0.0", directed=True, node_props_metadata=npm,
+                                edge_props_metadata={}, track_node_props={"lineage": "lin", "tracklet": "trk"})
+    return {"metadata": md, "node_ids": nodes, "edge_ids": np.asarray(c["edges"], dtype=np.int64).reshape(-1, 2),
+            "node_props": props, "edge_props": {}}
+
+
+def run_vd(g, cfg):
+    from geff.validate.data import ValidationConfig, validate_data
+
+    try:
+        validate_data(g, ValidationConfig(**cfg))
+        return "ok"
+    except ValueError:
+        return "ValueError"
+    except Exception as ex:  # noqa: BLE001
+        return type(ex).__name__
+
+
+def impl_masked(v):
+    """validate_data on a geff declaring lineage AND tracklet ids, either of which may carry a
+    missing mask: verdicts under lineage-only, tracklet-only and both (fresh geff per call)."""
+    out = {}
+    for name, cfg in (("lin", {"lineage": True}), ("trk", {"tracklet": True}),
+                      ("both", {"lineage": True, "tracklet": True}),
+                      ("all", {"lineage": True, "tracklet": True, "graph": False, "sphere": True, "ellipsoid": True})):
+        out[name] = run_vd(masked_geff(v), cfg)
+    return out
+
+
+def impl_history(h):
+    """validate_lineages called repeatedly on the SAME array objects, which the caller edits in
+    place between calls: every verdict must be the one for the current contents, and no call may
+    modify its arguments."""
+    from geff.validate.tracks import validate_lineages
+
+    c0 = h["steps"][0]
+    nodes = np.asarray(c0["nodes"], dtype=np.int64)
+    edges = np.asarray(c0["edges"], dtype=np.int64).reshape(-1, 2)
+    labels = np.asarray(c0["labels"], dtype=np.int64)
+    res = []
+    for st in h["steps"]:
+        nodes[:] = st["nodes"]
+        labels[:] = st["labels"]
+        if len(st["edges"]):
+            edges[:] = np.asarray(st["edges"], dtype=np.int64).reshape(-1, 2)
+        before = snapshot(nodes, edges, labels)
+        try:
+            valid, errors = validate_lineages(nodes, edges, labels)
+            r = {"valid": bool(valid), "bad": [int(MSG.match(m).group(1)) if MSG.match(m) else None for m in errors]}
+        except Exception as ex:  # noqa: BLE001
+            r = {"exc": type(ex).__name__}
+        r["modified"] = snapshot(nodes, edges, labels) != before
+        res.append(r)
+    return res
+
+
+def gen_dtyped(rng, c):
+    vals = c["nodes"] + [x for e in c["edges"] for x in e]
+    lo, hi = (min(vals), max(vals)) if vals else (0, 0)
+    nd, ed = rng.choice(INT_DTYPES), rng.choice(INT_DTYPES)
+    if rng.random() < 0.5:
+        ed = nd
+    ld = rng.choice(INT_DTYPES)
+    offs = [0]
+    import numpy as _np
+    for cand in (2**53 - 2, 2**53 + 1, 2**60, 2**62, 2**31 - 3, 200):
+        offs.append(cand)
+    rng.shuffle(offs)
+    for off in offs:
+        ok = all(_np.iinfo(d).min <= lo + off and hi + off <= min(_np.iinfo(d).max, 2**63 - 1) for d in (nd, ed))
+        if ok:
+            break
+    else:
+        nd = ed = "int64"
+        off = 0
+    if not all(_np.iinfo(ld).min <= x <= min(_np.iinfo(ld).max, 2**63 - 1) for x in c["labels"]):
+        ld = "int64"
+    return {"case": c, "nd": nd, "ed": ed, "ld": ld, "off": off,
+            "layout": rng.choice(["plain", "plain", "fortran", "strided", "readonly", "bigendian"])}
+
+
+def gen_masked(rng, c):
+    n = len(c["nodes"])
+    def mask(p):
+        m = [rng.random() < p for _ in range(n)]
+        return m if rng.random() < 0.8 else None
+    trk = tracklet_partition(c["nodes"], [tuple(e) for e in c["edges"]])
+    if rng.random() < 0.25 and n:
+        i = rng.randrange(n)
+        trk[i] = rng.choice(trk + [999])
+    return {"case": c, "trk": trk, "lin_missing": mask(0.3) if rng.random() < 0.6 else None,
+            "trk_missing": mask(0.3) if rng.random() < 0.7 else None}
+
+
+def gen_history(rng):
+    base = random_case(rng)
+    while not base["nodes"] or len(set(base["nodes"])) != len(base["nodes"]) or not base["edges"]:
+        base = random_case(rng)
+    steps = [base]
+    for _ in range(rng.randint(1, 3)):
+        prev = steps[-1]
+        st = {"nodes": list(prev["nodes"]), "labels": list(prev["labels"]), "edges": [list(e) for e in prev["edges"]]}
+        what = rng.random()
+        if what < 0.5:   # rewire one edge endpoint
+            i = rng.randrange(len(st["edges"]))
+            st["edges"][i][rng.randrange(2)] = rng.choice(st["nodes"] + [99])
+        elif what < 0.8:  # relabel one node
+            i = rng.randrange(len(st["labels"]))
+            st["labels"][i] = rng.choice(st["labels"] + [555])
+        else:            # swap two node ids (same set)
+            if len(st["nodes"]) > 1:
+                i, j = rng.sample(range(len(st["nodes"])), 2)
+                st["nodes"][i], st["nodes"][j] = st["nodes"][j], st["nodes"][i]
+        steps.append(st)
+    return {"steps": steps}
+
+
 # ----------------------------------------------------------------- generators
 def set_partitions(n):
     """restricted growth strings = labellings up to renaming"""
@@ -301,6 +473,73 @@ def run(ck: common.Check):
                             {**c, "cfg": cfg}, r, want)
     ck.extra["through_validate_data"] = n_vd
     ck.extra["through_validate_data_all_configs"] = n_cfg
+
+    # ---- dtype / memory-layout stream (verdict must depend on the integer values only)
+    pool = [c for c in cases if c["nodes"] and len(set(c["nodes"])) == len(c["nodes"])
+            and all(-100 <= x <= 127 for x in c["nodes"] + c["labels"] + [y for e in c["edges"] for y in e])
+            and all(x >= 0 for x in c["nodes"] + c["labels"] + [y for e in c["edges"] for y in e])]
+    nd_n = 2500 if ck.quick else 30000
+    dts = [gen_dtyped(ck.rng, ck.rng.choice(pool)) for _ in range(nd_n)]
+    for v, r in zip(dts, common.pmap(impl_dtyped, dts, chunksize=256)):
+        c = v["case"]
+        s_valid, s_bad = spec_oracle(c["nodes"], c["labels"], c["edges"])
+        ck.case({k: v[k] for k in ("nd", "ed", "ld", "off", "layout")} | {"case": c},
+                f"dtyped-{'same' if v['nd'] == v['ed'] else 'mixed'}-{v['layout']}")
+        if "exc" in r:
+            ck.fail("C14:exception-for-integer-dtype", f"validate_lineages raised {r['exc']} for node/edge/label dtypes "
+                    f"{v['nd']}/{v['ed']}/{v['ld']} layout {v['layout']}", {"dtyped": v}, r, {"valid": s_valid})
+        elif r["valid"] != s_valid or r["bad"] != s_bad:
+            ck.fail("C14:verdict-depends-on-dtype", f"node/edge/label dtypes {v['nd']}/{v['ed']}/{v['ld']}, ids shifted by {v['off']}: "
+                    f"got {r['valid']} {r['bad']}, the definition says {s_valid} {s_bad}", {"dtyped": v}, r, {"valid": s_valid, "bad": s_bad})
+        elif r["modified"]:
+            ck.fail("C14:validator-modifies-input", "validate_lineages modified its argument arrays", {"dtyped": v}, r, None)
+    ck.extra["dtyped_cases"] = nd_n
+
+    # ---- missing masks on the lineage and/or tracklet id property, every combination of the two validators
+    mpool = [c for c in cases if c["nodes"] and dag_clean(c)]
+    nm_n = 1500 if ck.quick else 20000
+    ms = [gen_masked(ck.rng, ck.rng.choice(mpool)) for _ in range(nm_n)]
+    for v, r in zip(ms, common.pmap(impl_masked, ms, chunksize=128)):
+        c = v["case"]
+        keep = [i for i in range(len(c["nodes"])) if not (v["lin_missing"] and v["lin_missing"][i])]
+        l_valid, _ = spec_oracle([c["nodes"][i] for i in keep], [c["labels"][i] for i in keep], c["edges"])
+        want_lin = "ok" if l_valid else "ValueError"
+        ck.case(v, f"masked-lin{'M' if v['lin_missing'] else '-'}-trk{'M' if v['trk_missing'] else '-'}-{want_lin}")
+        if r["lin"] != want_lin:
+            ck.fail("C14:masked-lineage-ids", f"validate_data(lineage=True) with a missing mask on the lineage ids gave {r['lin']}, "
+                    f"the definition on the nodes that carry an id says {want_lin}", {"masked": v}, r, want_lin)
+            continue
+        if r["trk"] not in ("ok", "ValueError"):
+            continue  # tracklet validation itself is C13's business
+        want_both = "ValueError" if (r["trk"] == "ValueError" or not l_valid) else "ok"
+        for k in ("both", "all"):
+            if r[k] != want_both:
+                ck.fail("C14:lineage-verdict-changes-with-tracklet-validation",
+                        f"lineage-only gives {r['lin']}, tracklet-only {r['trk']}, but with both enabled ({k}) validate_data gave {r[k]} "
+                        f"(masks: lineage {v['lin_missing']}, tracklet {v['trk_missing']})", {"masked": v}, r, want_both)
+                break
+    ck.extra["masked_cases"] = nm_n
+
+    # ---- histories on the same array objects, edited in place between calls
+    nh = 600 if ck.quick else 8000
+    hs = [gen_history(ck.rng) for _ in range(nh)]
+    for h, rs in zip(hs, common.pmap(impl_history, hs, chunksize=64)):
+        ck.case(h, f"history-{len(h['steps'])}")
+        for k, (st, r) in enumerate(zip(h["steps"], rs)):
+            if len(set(st["nodes"])) != len(st["nodes"]):
+                continue
+            s_valid, s_bad = spec_oracle(st["nodes"], st["labels"], st["edges"])
+            if "exc" in r:
+                ck.fail("C14:exception", f"history step {k}: validate_lineages raised {r['exc']}", {"history": h}, rs, None)
+                break
+            if r["valid"] != s_valid or r["bad"] != s_bad:
+                ck.fail("C14:history-dependent-verdict", f"step {k} of a history on the same array objects (edited in place): got "
+                        f"{r['valid']} {r['bad']}, the definition says {s_valid} {s_bad}", {"history": h}, rs, {"step": k, "valid": s_valid, "bad": s_bad})
+                break
+            if r["modified"]:
+                ck.fail("C14:validator-modifies-input", f"history step {k}: validate_lineages modified its arguments", {"history": h}, rs, None)
+                break
+    ck.extra["histories"] = nh
     ck.assumptions += [
         "networkx weakly_connected_components / DiGraph construction are modelled (component closure), not verified",
         "ids and labels are int64 (the function casts to int64); theorem is over any DecidableEq id type",
@@ -310,6 +549,38 @@ def run(ck: common.Check):
 
 def replay(rp):
     c = rp["case"]
+    if "dtyped" in c:
+        v = c["dtyped"]
+        r = impl_dtyped(v)
+        s_valid, s_bad = spec_oracle(v["case"]["nodes"], v["case"]["labels"], v["case"]["edges"])
+        ok = "exc" not in r and r["valid"] == s_valid and r["bad"] == s_bad and not r["modified"]
+        print(json.dumps({"case": v, "impl": r, "spec": {"valid": s_valid, "bad": s_bad}}))
+        print("REPLAY: property holds on this input" if ok else "REPLAY: property FAILS on this input")
+        return 0 if ok else 1
+    if "masked" in c:
+        v = c["masked"]
+        r = impl_masked(v)
+        cc = v["case"]
+        keep = [i for i in range(len(cc["nodes"])) if not (v["lin_missing"] and v["lin_missing"][i])]
+        l_valid, _ = spec_oracle([cc["nodes"][i] for i in keep], [cc["labels"][i] for i in keep], cc["edges"])
+        want_lin = "ok" if l_valid else "ValueError"
+        want_both = "ValueError" if (r["trk"] == "ValueError" or not l_valid) else "ok"
+        ok = r["lin"] == want_lin and (r["trk"] not in ("ok", "ValueError") or (r["both"] == want_both and r["all"] == want_both))
+        print(json.dumps({"case": v, "impl": r, "expected": {"lin": want_lin, "both": want_both}}))
+        print("REPLAY: property holds on this input" if ok else "REPLAY: property FAILS on this input")
+        return 0 if ok else 1
+    if "history" in c:
+        h = c["history"]
+        rs = impl_history(h)
+        ok = True
+        for st, r in zip(h["steps"], rs):
+            if len(set(st["nodes"])) != len(st["nodes"]):
+                continue
+            s_valid, s_bad = spec_oracle(st["nodes"], st["labels"], st["edges"])
+            ok = ok and "exc" not in r and r["valid"] == s_valid and r["bad"] == s_bad and not r["modified"]
+        print(json.dumps({"history": h, "impl": rs}))
+        print("REPLAY: property holds on this input" if ok else "REPLAY: property FAILS on this input")
+        return 0 if ok else 1
     if "cfg" in c:
         s_valid, _ = spec_oracle(c["nodes"], c["labels"], c["edges"])
         r = impl_via_validate_data(c, c["cfg"], with_tracklets=True)
